@@ -173,13 +173,65 @@ theorem create_if_needed_untouched (a : Option (List (List Nat))) (f : Funder)
   | signer k => simp [hsigner k rfl]
   | seeded k ss => rfl
 
+/-- `create_if_needed_short_data_errs` (D12b, repaired by d51f9cb): `CreateIfNeeded` on an account that
+is not System-owned and whose data is shorter than the discriminant returns `AccountDataTooSmall`
+— no panic — and the world and the CPI log are exactly what they were. -/
+theorem create_if_needed_short_data_errs (a : Option (List (List Nat))) (f : Funder)
+    (hseeds : initSeeds env tgt = .ok a) (hf : fa.resolve = some f)
+    (howner : (s.w tgt.key).owner ≠ systemId) (hlen : (s.w tgt.key).data.length < ty.W) :
+    initValidate env ty true tgt fa enc s = (.err .accountDataTooSmall, s) := by
+  have hia : initAccount env ty true tgt.key f a enc s = (.err .accountDataTooSmall, s) := by
+    unfold initAccount
+    rw [if_pos rfl, if_neg howner, if_pos hlen]
+  unfold initValidate
+  rw [hseeds]; simp only []
+  rw [hf]; simp only []
+  rw [hia]
+
+/-- …and, whatever the seeds / funder resolution, it never panics and never succeeds there. -/
+theorem create_if_needed_short_data_no_panic
+    (hfind : ∀ k ss, tgt = .seeded k ss →
+      (Account.Seeds.find env.H (Account.Seeds.dropTrailingEmpty ss) env.program).isSome)
+    (howner : (s.w tgt.key).owner ≠ systemId) (hlen : (s.w tgt.key).data.length < ty.W) :
+    ∃ e, (initValidate env ty true tgt fa enc s) = (.err e, s) := by
+  unfold initValidate
+  cases hs : initSeeds env tgt with
+  | panic =>
+    exfalso
+    cases tgt with
+    | signer k => simp [initSeeds] at hs
+    | seeded k ss =>
+      have hsome := hfind k ss rfl
+      simp only [initSeeds] at hs
+      cases hfd : Account.Seeds.find env.H (Account.Seeds.dropTrailingEmpty ss) env.program with
+      | none => rw [hfd] at hsome; cases hsome
+      | some p =>
+        obtain ⟨addr, bump⟩ := p
+        rw [hfd] at hs
+        simp only [] at hs
+        by_cases he : addr = k
+        · rw [if_pos he] at hs; cases hs
+        · rw [if_neg he] at hs; cases hs
+  | err e => exact ⟨e, rfl⟩
+  | ok a =>
+    simp only []
+    cases hf : fa.resolve with
+    | none => exact ⟨_, rfl⟩
+    | some f =>
+      simp only []
+      have hia : initAccount env ty true tgt.key f a enc s = (.err .accountDataTooSmall, s) := by
+        unfold initAccount
+        rw [if_pos rfl, if_neg howner, if_pos hlen]
+      rw [hia]
+      exact ⟨_, rfl⟩
+
 /-- `seeded_create_signed_by_seeds`: for a seeded target whose seeds derive `(key, bump)`, every
 CPI issued by the validation carries exactly the recorded `seeds_with_bump` as the account's signer
 seeds — `CreateAccount`: funder seeds (if any) then the account seeds; `Transfer`: the funder seeds
 only; `Allocate` / `Assign`: the account seeds only — touches only the funder and the target, and
 a successful creation issued at least one of them. -/
 theorem seeded_create_signed_by_seeds (k : Key) (ss : List (List Nat)) (bump : Nat) (f : Funder)
-    (hfind : Account.Seeds.find env.H ss env.program = some (k, bump)) (hf : fa.resolve = some f) :
+    (hfind : Account.Seeds.find env.H (Account.Seeds.dropTrailingEmpty ss) env.program = some (k, bump)) (hf : fa.resolve = some f) :
     ∃ l, (initValidate env ty ifn (.seeded k ss) fa enc s).2.log = s.log ++ l ∧
       (∀ c ∈ l, wellSigned f (some (Account.Seeds.seedsWithBump ss bump)) c ∧ touches f k c) ∧
       ((initValidate env ty ifn (.seeded k ss) fa enc s).1 = .ok true → l ≠ []) := by
